@@ -42,7 +42,7 @@ LEAK_RE = re.compile(r"(mem::forget|boxed::Box::<.*>::leak|mem::ManuallyDrop::<.
 
 
 class Site:
-    __slots__ = ("kind", "fn", "file", "line", "detail", "bb", "discharge", "key", "operands", "macros", "old_key")
+    __slots__ = ("kind", "fn", "file", "line", "detail", "bb", "discharge", "key", "operands", "macros", "old_key", "kfn")
 
     def __init__(self, kind, fn, sp, detail, bb, operands=None):
         self.kind = kind
@@ -59,7 +59,10 @@ class Site:
         self.bb = bb
         self.discharge = None
         self.operands = operands or []
-        self.key = f"{kind}|{fn}|{detail}"
+        # sites inside closures are attributed to the function that owns the closure: a loop body turned into an
+        # iterator closure (or back) keeps its key
+        self.kfn = fn.split("::{closure")[0]
+        self.key = f"{kind}|{self.kfn}|{detail}"
 
     def __repr__(self):
         return f"<{self.kind} {self.fn} {self.file}:{self.line} {self.detail} {self.discharge or ''}>"
@@ -795,6 +798,39 @@ def len_bounded(ix, op, depth=0):
     return False
 
 
+def len_upper_of(ix, op, depth=0):
+    """Containers whose len() bounds the operand from above: len(c), or such a value reduced by -, /, >>, %, &, min or a
+    cast (the subtraction panics instead of wrapping in the analysed build).  Returns a set of place descriptions."""
+    if depth > 8:
+        return set()
+    lo = len_of(ix, op)
+    if lo:
+        return {lo}
+    r = ix.resolve(op)
+    if r[0] == "cast":
+        return len_upper_of(ix, r[1]["a"], depth + 1)
+    if r[0] == "call":
+        c = ix.callee(r[1])
+        if c.endswith("cmp::min") or c.endswith("::min"):
+            out = set()
+            for a in r[1]["args"]:
+                out |= len_upper_of(ix, a, depth + 1)
+            return out
+        if any(c.endswith(x) for x in ("::checked_sub", "::saturating_sub", "::wrapping_div", "::checked_div", "::unwrap", "::unwrap_or_default", "::expect", "Try>::branch", "::ok")):
+            return len_upper_of(ix, r[1]["args"][0], depth + 1)
+        return set()
+    if r[0] == "rv" and r[1]["k"] == "bin" and r[1]["op"].replace("WithOverflow", "") in ("Sub", "Div", "Shr", "Rem", "BitAnd"):
+        return len_upper_of(ix, r[1]["a"], depth + 1)
+    if r[0] == "place":
+        pl = r[1]
+        d = ix.single_def(pl["l"])
+        if d and d[0] == "assign" and d[3]["rv"]["k"] == "bin" and d[3]["rv"]["op"] in ("SubWithOverflow",):
+            return len_upper_of(ix, d[3]["rv"]["a"], depth + 1)
+        if d and d[0] == "call" and any(isinstance(pr, dict) and pr.get("n") in ("Some", "Ok", "Continue") for pr in pl["p"]):
+            return len_upper_of(ix, {"c": {"l": pl["l"], "p": [], "ty": ""}}, depth + 1)
+    return set()
+
+
 ALLOC_CAP = 4 << 20  # a fixed few MiB regardless of input is not "out of proportion"
 
 
@@ -864,8 +900,21 @@ def upper_bound(ix, op, depth=0):
                 ua = upper_bound(ix, a, depth + 1)
                 if v and v > 0 and ua:
                     return (ua - 1) // v + 1
-    if r[0] == "place" or r[0] == "local" or r[0] == "param":
-        pass
+    if r[0] == "call":
+        # lossless integer conversions spelled as calls: usize::from(x), x.into()
+        c_ = ix.callee(r[1])
+        if (re.search(r"convert::From<(u8|u16|bool)>( for \w+)?>::from$", c_) or c_.endswith("convert::Into<T>>::into") or c_.endswith("Into<U>>::into")) and r[1]["args"]:
+            a0 = op_place(r[1]["args"][0])
+            inner = upper_bound(ix, r[1]["args"][0], depth + 1)
+            if inner:
+                return inner
+            if a0 and a0["ty"] == "u16":
+                return 1 << 16
+    if r[0] == "rv" and r[1]["k"] == "bin" and r[1]["op"] in ("BitXor", "BitOr"):
+        # bitwise combination of two operands below 2^k stays below 2^k
+        ua, ub = upper_bound(ix, r[1]["a"], depth + 1), upper_bound(ix, r[1]["b"], depth + 1)
+        if ua and ub:
+            return 1 << (max(ua, ub) - 1).bit_length()
     # typed bound for narrow unsigned operands
     p = op_place(op)
     if p and p["ty"] in ("u8",):
@@ -1047,6 +1096,9 @@ def discharge(ix, s):
     k = s.kind
     ops = s.operands
     body = ix.body
+    if k == "slice-pre" and s.detail in ("cell::RefCell::<T>::borrow", "cell::RefCell::<T>::borrow_mut") and ACTX.get("refcell", {}).get("ok"):
+        # set by the rule REFCELL (C18) after its typestate check over the whole reachable call graph
+        return "D11 RefCell borrow under the REFCELL discipline: no conflicting guard is alive at any borrow in the reachable code"
     if k == "bounds":
         ln, idx = ops
         lc, ic = const_int(ln), None
@@ -1480,19 +1532,19 @@ def analyse(prog, entry_defs, counts=None, wire=None):
             s.discharge = None
         s.old_key = s.key
         if s.kind == "unwrap":
-            s.key = f"{s.kind}|{s.fn}|{s.detail}{producer(ix, s)}"
+            s.key = f"{s.kind}|{s.kfn}|{s.detail}{producer(ix, s)}"
             s.old_key = s.key
         elif s.kind in ("index",):
-            s.old_key = f"{s.kind}|{s.fn}|{s.detail}{index_shape(ix, s)}"
+            s.old_key = f"{s.kind}|{s.kfn}|{s.detail}{index_shape(ix, s)}"
             # element accesses are keyed by element type and index shape, whatever the container (Vec / slice / array)
             # and whether the compiler emitted an Index call or an inline bounds check
             ga_ = (ix.body.term(s.bb)["f"].get("k") or {}).get("ga", [])
-            s.key = f"index|{s.fn}|{elem_type(ga_[0] if ga_ else s.detail)}{index_shape(ix, s)}"
+            s.key = f"index|{s.kfn}|{elem_type(ga_[0] if ga_ else s.detail)}{index_shape(ix, s)}"
         elif s.kind == "bounds":
             r = ix.resolve(s.operands[1])
             lc = const_int(s.operands[0])
-            s.old_key = f"{s.kind}|{s.fn}|len={lc if lc is not None else '_'} idx={r[1] if r[0]=='const' else '_'}"
-            s.key = f"index|{s.fn}|{bounds_elem_type(ix, s)}[{r[1] if r[0]=='const' else '_'}]"
+            s.old_key = f"{s.kind}|{s.kfn}|len={lc if lc is not None else '_'} idx={r[1] if r[0]=='const' else '_'}"
+            s.key = f"index|{s.kfn}|{bounds_elem_type(ix, s)}[{r[1] if r[0]=='const' else '_'}]"
         out.append((s, n))
     return out, reach, parent, defs
 
@@ -1555,36 +1607,50 @@ def _key_locals(k, out):
 
 
 def unchanged_between(ix, guard_bb, site_bb, locals_):
-    """Straight-line check: walking back from the site through unique predecessors reaches the guard block without any
-    statement that assigns or mutably borrows one of the locals (multi-definition locals such as loop counters)."""
+    """No statement on any path from the guard to the site (without passing the guard again) assigns or mutably
+    borrows one of the locals (multi-definition locals such as loop counters): the value tested by the guard is the
+    value used at the site.  The blocks in question are those reachable from the guard's successors that can still
+    reach the site, both without going through the guard block."""
     body = ix.body
     multi = {l for l in locals_ if ix.single_def(l) is None and not (1 <= l <= body.argc)}
     if not multi:
         return True
-    cur = site_bb
-    for _ in range(64):
-        if cur != guard_bb:
-            blk = body.blocks[cur]
-            for st in blk["s"]:
-                if st["k"] == "assign":
-                    if st["lhs"]["l"] in multi:
-                        return False
-                    rv = st["rv"]
-                    if rv["k"] in ("ref", "rawptr") and rv.get("mut") in (True, "Mut") and rv["p"]["l"] in multi:
-                        return False
-            t = blk["t"]
-            if cur != site_bb and t["k"] == "call" and t.get("dest") and t["dest"]["l"] in multi:
-                return False
-        else:
-            return True
-        ps = [p_ for p_ in body.pred(cur) if not body.blocks[p_]["cleanup"]]
-        if len(ps) != 1:
+    if guard_bb == site_bb:
+        return True
+    fwd, todo = set(), [s_ for s_ in body.succ(guard_bb) if not body.blocks[s_]["cleanup"]]
+    while todo:
+        x = todo.pop()
+        if x in fwd or x == guard_bb:
+            continue
+        fwd.add(x)
+        if len(fwd) > 4000:
             return False
-        cur = ps[0]
-        t = body.blocks[cur]["t"]
-        if cur != guard_bb and t["k"] == "call" and t.get("dest") and t["dest"]["l"] in multi:
+        todo += [s_ for s_ in body.succ(x) if not body.blocks[s_]["cleanup"]]
+    if site_bb not in fwd:
+        return False
+    bwd, todo = set(), [site_bb]
+    while todo:
+        x = todo.pop()
+        if x in bwd or x == guard_bb:
+            continue
+        bwd.add(x)
+        todo += [p_ for p_ in body.pred(x) if not body.blocks[p_]["cleanup"]]
+    region = fwd & bwd
+    # is the site block itself on a cycle that avoids the guard?  then its own terminator result counts too
+    site_cyclic = any(s_ in region for s_ in body.succ(site_bb))
+    for cur in region:
+        blk = body.blocks[cur]
+        for st in blk["s"]:
+            if st["k"] == "assign":
+                if st["lhs"]["l"] in multi:
+                    return False
+                rv = st["rv"]
+                if rv["k"] in ("ref", "rawptr") and rv.get("mut") in (True, "Mut") and rv["p"]["l"] in multi:
+                    return False
+        t = blk["t"]
+        if (cur != site_bb or site_cyclic) and t["k"] == "call" and t.get("dest") and t["dest"]["l"] in multi:
             return False
-    return False
+    return True
 
 
 def lt_len_guard(ix, s, cont, idx):
@@ -1601,9 +1667,9 @@ def lt_len_guard(ix, s, cont, idx):
         if not (r[0] == "rv" and r[1]["k"] == "bin" and r[1]["op"] in ("Lt", "Ge", "Gt", "Le")):
             return False
         a, b, op_ = r[1]["a"], r[1]["b"], r[1]["op"]
-        if op_ in ("Lt", "Ge") and expr_key(ix, a, casts=True) == ek and len_of(ix, b) == cdesc:
+        if op_ in ("Lt", "Ge") and expr_key(ix, a, casts=True) == ek and cdesc in len_upper_of(ix, b):
             want_true = op_ == "Lt"
-        elif op_ in ("Gt", "Le") and expr_key(ix, b, casts=True) == ek and len_of(ix, a) == cdesc:
+        elif op_ in ("Gt", "Le") and expr_key(ix, b, casts=True) == ek and cdesc in len_upper_of(ix, a):
             want_true = op_ == "Gt"
         else:
             return False
@@ -1781,7 +1847,7 @@ def source_name(ix, op):
         if fl:
             return fl[-1]["n"]
         if p["l"] in names:
-            return names[p["l"]]
+            return names[p["l"]].rsplit("~", 1)[-1]  # locals of an inlined helper carry `helper~name`
         d = ix.single_def(p["l"])
         if d and d[0] == "call" and d[3]["args"] and any(ix.callee(d[3]).endswith(x) for x in ("Deref::deref", "DerefMut::deref_mut", "::deref", "::as_slice", "::as_ref", "::as_str", "::as_bytes", "::iter", "::borrow")):
             p = op_place(d[3]["args"][0])
@@ -1837,6 +1903,8 @@ def requires_sizeof_equals_wire(ix, s, exc):
         return False
     rb = ix.resolve(ops[1])
     okb = rb[0] == "call" and ix.callee(rb[1]).endswith("mem::size_of") and ((rb[1]["f"].get("k") or {}).get("ga") or [None])[0] == prm.get("adt")
+    # the same number through a named constant (`const HEADER_SIZE: usize = size_of::<T>()` is evaluated by the compiler)
+    okb = okb or (rb[0] == "const" and rb[1] == ws)
     reads = [bi for bi, tt in ix.body.calls() if "BinRead" in ix.callee(tt) and prm.get("adt") in " ".join((tt["f"].get("k") or {}).get("ga", []))]
     return okb and len_of(ix, ops[0]) is not None and any(ix.body.dominates(bi, s.bb) for bi in reads)
 
